@@ -1,5 +1,4 @@
 import NomtModel.Store.BtReconLemmas
-import NomtModel.Store.BtLookupLemmas
 /-!
 The loop of `reconstruct`: on a file whose pages below the bump all classify (`cls`), whose live nodes have a
 prefix-compressed first separator and pairwise different first separators, it ends without error or panic with the
